@@ -71,7 +71,7 @@ func cmdCheck(args []string) int {
 	}
 	start := time.Now()
 	tier := "quick"
-	timeoutS := 20
+	timeoutS := 30
 	if *thorough {
 		tier = "thorough"
 		timeoutS = 120
